@@ -1708,6 +1708,20 @@ def m_dict_get(interp, st, base, base_node, args, kwargs, node):
     raise Outside("get on symbolic dict", node)
 
 
+def m_dict_update(interp, st, base, base_node, args, kwargs, node):
+    """d.update(k=v, ...) / d.update({...}) on a python dict with constant keys: the same as the item assignments in argument order"""
+    if not isinstance(base, dict):
+        raise Outside("update on symbolic dict", node)
+    new = dict(base)
+    for a in args:
+        if not isinstance(a, dict) or any(is_sym(k) for k in a):
+            raise Outside("dict.update with a non-constant-key mapping", node)
+        new.update(a)
+    new.update(kwargs)
+    _mutate(interp, st, base_node, new, node)
+    return None
+
+
 def m_dict_items(interp, st, base, base_node, args, kwargs, node):
     return [(k, v) for k, v in base.items()]
 
@@ -1766,6 +1780,7 @@ METHODS = {
     ("CSet", "copy"): m_set_copy,
     ("dict", "get"): m_dict_get,
     ("dict", "items"): m_dict_items,
+    ("dict", "update"): m_dict_update,
     ("dict", "keys"): m_dict_keys,
     ("dict", "values"): m_dict_values,
     ("str", "startswith"): m_str_startswith,
